@@ -4,6 +4,7 @@ chosen block layout, indexed by the real `gaftools index`, with the ground-truth
 record -> traversed nodes."""
 
 import os
+import time
 from vf.util import vary_name  # noqa: E402
 import pickle
 
@@ -103,7 +104,16 @@ def run_index(w, out=None):
     argv = ["index", w.gaf, w.gfa] + (["-o", out] if out else [])
     o = run_cli(argv)
     w.gvi = out or (w.gaf + ".gvi")
+    if o.ok and stable_touch(w):
+        # the GAF gets a newer modification time than its index (touch, cp, rsync without -t): same content
+        t = time.time() + 30
+        os.utime(w.gaf, (t, t))
     return o
+
+
+def stable_touch(w):
+    import hashlib
+    return int(hashlib.sha1(("touch" + "".join(w.lines[:1])).encode()).hexdigest()[:4], 16) % 5 == 0
 
 
 def load_index(w):
